@@ -2,9 +2,7 @@ use anyhow::Result;
 
 use crate::parser::{Node, Parser};
 
-use super::{
-    get_net_dependencies, CompilationState, Compile, Declaration, Dependencies, Dependency,
-};
+use super::{subtract_supplied, CompilationState, Compile, Declaration, Dependencies, Dependency};
 
 #[derive(Debug)]
 pub struct Block(Vec<Declaration>);
@@ -26,8 +24,23 @@ impl Dependencies for Block {
         block_dependencies
     }
 
+    /// A declaration can only be satisfied by what the declarations BEFORE it supply: a name that is used first
+    /// and declared later in the same block (`if c { print x }` followed by `x = 5` or by `from 0 to 3, x {}`)
+    /// still refers to the variable of the enclosing scope there, and has to stay an outstanding dependency.
     fn net_dependencies(&self) -> Vec<Dependency> {
-        get_net_dependencies(self, true)
+        let mut supplies: Vec<Dependency> = vec![];
+        let mut result: Vec<Dependency> = vec![];
+
+        for declaration in self.0.iter() {
+            result.append(&mut subtract_supplied(
+                declaration.net_dependencies(),
+                &supplies,
+                true,
+            ));
+            supplies.append(&mut declaration.supplies());
+        }
+
+        result
     }
 }
 
